@@ -58,12 +58,18 @@ BigOk(ev) == /\ ev.rc1 = 0 /\ ev.rc2 = 0 /\ ev.lenHigh >= 1
              /\ ev.truncated = Hash([i \in 1..ev.lenLow |-> 0], 32, <<>>)
              /\ ev.oneshot # ev.truncated
 
+\* a digest or key length of outHigh * 2^32 + outLow with a non-zero high word is out of range whatever its low part is: the one-shot
+\* call and init / init_key fail and nothing is written
+WideLenOk(ev) == /\ (ev.outHigh > 0 \/ ev.keyHigh > 0)
+                 /\ ev.rc = -1 /\ ev.rcInit = -1 /\ ev.out = Canary(Len(ev.out))
+
 EventOk(ev) ==
   CASE ev.e = "oneshot" -> OneShotOk(ev)
     [] ev.e = "stream"  -> StreamOk(ev)
     [] ev.e = "long"    -> LongOk(ev)
     [] ev.e = "commit"  -> CommitOk(ev)
     [] ev.e = "big"     -> BigOk(ev)
+    [] ev.e = "widelen" -> WideLenOk(ev)
     [] OTHER -> FALSE
 
 Init == l = 1
